@@ -29,7 +29,50 @@ def blockwise_with_dask_labels(case, clause, detail):
     return case.get("method") == "blockwise" and bool(case.get("by_dask")) and clause.startswith("exception:")
 
 
+def _bad_slots(detail):
+    exp, got = detail.get("expected") or [], detail.get("got") or []
+    return [k for k in range(min(len(exp), len(got))) if exp[k][1] >= 0 and exp[k] != got[k]]
+
+
+def explicit_min_count_zero_absent_label(case, clause, detail):
+    """min_count=0 given explicitly together with a fill_value: a requested label that never occurs gets the
+    reduction's identity / NaN / the intermediate sentinel instead of the user's fill (count-based masking cannot
+    tell an absent label from an all-NaN group)"""
+    if case.get("min_count") != 0 or case.get("fill") is None or case.get("req") is None or "values" not in clause:
+        return False
+    if not isinstance(detail, dict) or len(detail.get("expected") or []) != len(detail.get("got") or []):
+        return False
+    present = {c for c in case["codes"] if c >= 0}
+    groups = detail.get("groups") or []
+    bad = _bad_slots(detail)
+    return bool(bad) and all(groups[k] not in present for k in bad)
+
+
+def min_count_zero_nanminmax_allnan(case, clause, detail):
+    """explicit min_count=0 with nanmin/nanmax: a present group whose members are all NaN receives the user's
+    fill although no group has fewer than 0 valid members (flox silently raises min_count to 1 for these two)"""
+    if case.get("min_count") != 0 or case.get("func") not in ("nanmax", "nanmin") or "values" not in clause:
+        return False
+    if not isinstance(detail, dict) or len(detail.get("expected") or []) != len(detail.get("got") or []):
+        return False
+    groups = detail.get("groups") or []
+    members = _groups(case)
+    present = {c for c in case["codes"] if c >= 0}
+    bad = _bad_slots(detail)
+
+    def ok(k):
+        g = groups[k]
+        if g not in present:   # absent label: the other finding of this family
+            return True
+        m = members.get(g, [])
+        return bool(m) and all(_isnan(v) for v in m)
+
+    return bool(bad) and all(ok(k) for k in bad)
+
+
 MATCHERS = {
+    "min_count_zero_nanminmax_allnan": min_count_zero_nanminmax_allnan,
+    "explicit_min_count_zero_absent_label": explicit_min_count_zero_absent_label,
     "blockwise_with_dask_labels": blockwise_with_dask_labels,
     "numba_minmax_ignores_nan": numba_minmax_ignores_nan,
 }
